@@ -85,6 +85,12 @@ Step(e) ==
     [] e.e = "load"   -> VStep(e, AllLanes, LoadRes(e.p, e.n), Load(e.d, e.p, e.n))
     [] e.e = "store"  -> IF Quiet(e) /\ e.mem = StoreRes(e.a, e.p, e.n) THEN Accept /\ Store(e.a, e.p, e.n)
                          ELSE Reject /\ Force(V, K, [x \in 1..MemSize |-> e.mem[x]], IF e.rm \in Modes THEN e.rm ELSE env)
+    \* gather / scatter: the driver builds the index register itself (an earlier setvec), always inside the arena
+    [] e.e = "gather" -> IF GSDom(e.p, e.b, e.n) THEN VStep(e, AllLanes, GatherRes(e.p, e.b, e.n), Gather(e.d, e.p, e.b, e.n))
+                         ELSE Reject /\ ForceV(e)
+    [] e.e = "scatter" -> IF ScatterDom(e.p, e.b, e.n) /\ Quiet(e) /\ e.mem = ScatterRes(e.a, e.p, e.b, e.n)
+                          THEN Accept /\ Scatter(e.a, e.p, e.b, e.n)
+                          ELSE Reject /\ Force(V, K, [x \in 1..MemSize |-> e.mem[x]], IF e.rm \in Modes THEN e.rm ELSE env)
     [] e.e = "setenv" -> Accept /\ SetEnv(e.m)
     \* pure observers: no state change, the observation must describe the specification's state
     [] e.e = "extract" -> (IF Quiet(e) /\ e.x = V[e.a][e.I + 1] THEN Accept ELSE Reject) /\ UNCHANGED vars
